@@ -37,12 +37,13 @@ fn generate(rng: &mut Rng) -> C16Sc {
         _ => Some((rng.chance(1, 2), true)),
     };
     let limiter = if rng.chance(1, 2) { Some((secs(8), 3usize)) } else { None };
-    let nhmax = match rng.below(16) {
-        0 => 64,
-        1..=3 => 20,
+    let nhmax = match rng.below(64) {
+        1..=4 => 64,
+        5..=16 => 20,
         _ => 5,
     };
-    let nh = rng.range(1, nhmax);
+    // rarely a really large crowd (beyond any round number somebody may have picked as a cap on open connections)
+    let nh = if rng.chance(1, 160) { *rng.pick(&[260u64, 520, 1030, 2100]) } else { rng.range(1, nhmax) };
     // deployments behind a load balancer: every client (the victim too) arrives from the same one or two peers
     let lb_mode = proxy.is_some() && rng.chance(1, 2);
     // a crowd that misbehaves in the same way (rather than a mix)
@@ -213,7 +214,7 @@ impl Check for C16 {
         "exploration"
     }
     fn rule_text(&self) -> String {
-        "1-20 hostile clients (silent before the PROXY header, stalled inside it, header trickling in over up to 20 s, stopping after n frames, stalled mid-frame, never echoing keep-alives, never reading, silent) connecting within 5 s, plus one well-behaved victim with its own IP connecting within 8 s for a status exchange or a full login; PROXY off / v1+v2 / v2, limiter on or off, routing latency up to 20 s, timeout 30-600 s. Every scenario is run twice: with everybody and with the victim alone. Non-trivial = at least one hostile client connected before the victim finished; distinct = distinct (event-order trace, hostile kinds) hash.".into()
+        "1-64 hostile clients - one run in 160 a crowd of 260 / 520 / 1030 / 2100 - (silent before the PROXY header, stalled inside it, header trickling in over up to 20 s, stopping after n frames, stalled mid-frame, never echoing keep-alives, never reading, silent) connecting within 5 s, plus one well-behaved victim with its own IP connecting within 8 s for a status exchange or a full login; PROXY off / v1+v2 / v2, limiter on or off, routing latency up to 20 s, timeout 30-600 s. Every scenario is run twice: with everybody and with the victim alone. Non-trivial = at least one hostile client connected before the victim finished; distinct = distinct (event-order trace, hostile kinds) hash.".into()
     }
     fn assumptions(&self) -> Vec<String> {
         vec!["compute costs no virtual time, so any difference in the victim's timestamps is waiting caused by another connection".into()]
